@@ -14,6 +14,9 @@ SUBMISSIONS = {
     "syntax": "def add(a, b):\n    return a +\nprint('hello')\n",
     "unused": "def add(a, b):\n    return a + b\nleftover = 5\nfor i in range(2):\n    print(i)\n",
     "parts": "print('pre')\n##### Part 1\nfirst = 1\nprint(first)\n##### Part 2\nsecond = undefined_thing\n",
+    # a standard module that nothing in the process has imported yet, with module-level state
+    "modset": "import calendar\ncalendar.setfirstweekday(6)\nprint('set')\n",
+    "modget": "import calendar\nprint(calendar.firstweekday())\n",
     "realmut": "import math\nmath.pi = 3\nprint(math.pi)\n",
     "mathy": "import math\narea = math.pi * 2 ** 2 + 1\nprint(area)\n",
     # attribute assignments on values of builtin types: TIFA records them in the value's method table
@@ -73,6 +76,8 @@ SCRIPTS = {
     "qpool": ("from pedal import *\nfrom pedal.questions import Pool, Question, set_seed\nset_seed([0, 1, 0, 1, 0, 1])\n"
               "qa = Question('QA', 'Create a for loop.', [lambda q: False])\nqb = Question('QB', 'Create an if statement.', [lambda q: False])\n"
               "Pool('P1', [qa, qb]).choose().ask()\n"),
+    # graded WITHOUT the automatic TIFA run (skip_tifa=True): TIFA would import the student's modules for real itself
+    "plain_notifa": ("from pedal import *\nrun()\n"),
     "raiser_b": ("from pedal import *\ndef broken(x):\n    return int('not a number (script B)')\n"
                  "mock_function('len', broken)\nrun()\n"),
 }
@@ -110,7 +115,7 @@ def grade(script_id, sub_id):
                      main_code=SUBMISSIONS[sub_id], instructor_file="on_run.py")
     b = Bundle(Config(), SCRIPTS[script_id], sub)
     b.environment = "standard"
-    b.run_ics_bundle()
+    b.run_ics_bundle(skip_tifa=script_id.endswith("_notifa"))
     r = b.result
     res = r.resolution
     out = {"error": type(r.error).__name__ if r.error is not None else None}
